@@ -32,7 +32,7 @@ Inductive bobs :=
 | OUnit
 | OOrders (os : list (uorder float))
 | OGetters (total liq : float) (per : list sym_getters)
-| OCosts (x : float)
+| OCosts (x : float) (price : float) (ib isl : float * float)
 | OPanic.
 
 Record bstep := mkBStep {
@@ -130,8 +130,12 @@ Definition bstep_mask_steps (qk : quirks) (st : bstep) : N :=
       if negb (is_order_of ord (b_holdings b)) then kind_bad else
       bit B_GETTERS (feq (total_value b ord) total && feq (liquidation_value b ord) liq
                      && list_eqb sym_getters_eqb (map (model_getters b) syms) per)
-  | BTradeCosts qty value, OCosts x =>
-      bit B_GETTERS (feq (calculate_trade_costs (b_costs b) qty value) x)
+  | BTradeCosts qty value, OCosts x price ib isl =>
+      let mb := trade_impact_total (b_costs b) value price true in
+      let ms := trade_impact_total (b_costs b) value price false in
+      bit B_GETTERS (feq (calculate_trade_costs (b_costs b) qty value) x
+                     && feq (fst mb) (fst ib) && feq (snd mb) (snd ib)
+                     && feq (fst ms) (fst isl) && feq (snd ms) (snd isl))
   | _, _ => kind_bad
   end.
 
